@@ -14,6 +14,11 @@ pub fn run_ops(sc: &mut ControlChange14BitMessageScanner, ops: &[i64], obs: &mut
                 sc.reset();
                 None
             }),
+            // starting over with a scanner created through Default (in the model: a new scanner)
+            8 => region(|| {
+                *sc = Default::default();
+                None
+            }),
             k => region(|| with_msg(k, op[1], op[2], op[3], &mut |m| m.feed_cc14(sc))),
         };
         match r {
@@ -118,7 +123,7 @@ pub fn random_op(r: &mut Rng, nch: u64, v: &mut Vec<i64>) {
             let s = r.pick(&[128i64, 144, 160, 192, 208, 224]) + c;
             v.extend_from_slice(&[kind, s, r.pick(&[0i64, 1, 2, 32, 33, 34]), r.below(128) as i64]);
         }
-        0 => v.extend_from_slice(&[2, 0, 0, 0]),
+        0 => v.extend_from_slice(&[r.pick(&[2i64, 2, 8]), 0, 0, 0]),
         1 => {
             // any message of the full alphabet
             let s = 128 + r.below(128) as i64;
